@@ -42,6 +42,20 @@ func C13(r *Run) *core.Report {
 		rep.Obs = append(rep.Obs, &c)
 		n6++
 	}
+	// ... measured against the table that is current once the resize flag is owned (restated from C03/C04.P4): a length
+	// doubled from a stale, shorter table installs no longer table and the inserting caller retries for ever
+	for i, prop := range []string{"C03", "C04"} {
+		for _, o := range mapProtocol(r, prop, i).Obs {
+			if o.Trivial || o.Rule != prop+".P4" || !strings.Contains(o.Construct, "new table length") {
+				continue
+			}
+			c := *o
+			c.Construct = "[" + o.Rule + "] " + o.Construct
+			c.Rule = "C13.L6"
+			rep.Obs = append(rep.Obs, &c)
+			n6++
+		}
+	}
 	rep.MinCount("C13.L6", "premise obligations (a grow grows)", n6, 2)
 	// L7: chain walks end: each one moves to the link of the bucket it stands on (and stops at nil), restated from C11.L2
 	n7 := 0
